@@ -124,11 +124,16 @@ def check_configs(res, desc, state, names):
                               f"{'given' if with_search else 'omitted'} raised {e!r}", desc,
                               with_conv=with_conv, with_search=with_search)
                 continue
-            want = 7 if with_conv else 10 * nE
-            if not isinstance(lim, int) or isinstance(lim, bool) or lim != want:
-                res.violation("C11:config-default-limit", f"convergence limit is {lim!r}, expected {want}", desc)
-            if sl != (2 if with_search else 25):
-                res.violation("C11:config-search-limit", f"search limit is {sl!r}", desc)
+            # given limits must be honoured; defaults must be usable loop bounds (the property does not fix their
+            # values, the code documents 10 * |E| and 25)
+            ok_int = isinstance(lim, int) and not isinstance(lim, bool)
+            if not ok_int or (with_conv and lim != 7) or (not with_conv and lim < 0):
+                res.violation("C11:config-default-limit", f"convergence limit is {lim!r} "
+                              f"({'given 7' if with_conv else 'default'})", desc)
+            ok_int = isinstance(sl, int) and not isinstance(sl, bool)
+            if not ok_int or (with_search and sl != 2) or (not with_search and sl < 1):
+                res.violation("C11:config-search-limit", f"search limit is {sl!r} "
+                              f"({'given 2' if with_search else 'default'})", desc)
 
 
 def run_scenario(inst, tier):
